@@ -4,6 +4,8 @@ import (
 	"fmt"
 	"go/token"
 	"go/types"
+	"sort"
+	"strings"
 
 	"golang.org/x/tools/go/ssa"
 )
@@ -331,7 +333,118 @@ func isReturn(in ssa.Instruction) bool {
 // i.e. target executes only when at least one assumption is false... used as: guarded(target, assume K=false)
 // == "target requires K".
 func (w *World) unreachableUnder(fn *ssa.Function, target ssa.Instruction, as ...assumption) bool {
-	return !canReach(entryPt(fn), w.under(as...), isInstr(target), nil)
+	keep := w.under(as...)
+	if !canReach(entryPt(fn), keep, isInstr(target), nil) {
+		return true
+	}
+	// the pruned graph still has a path: it may be one that answers the same test differently at two places
+	// (`if m != "A" && m != "B" { return }; if m == "A" {..} else {target}`); walk the paths with the tests remembered
+	return w.consistentlyUnreachable(fn, keep, target)
+}
+
+// consistentlyUnreachable: no path from the entry to target, over kept edges, on which every stable test (an atom whose
+// operands are computed outside loops) has one value throughout. Bounded; gives up (false) when the bound is hit.
+func (w *World) consistentlyUnreachable(fn *ssa.Function, keep edgeKeep, target ssa.Instruction) bool {
+	stable := map[*ssa.If]string{}
+	for _, b := range fn.Blocks {
+		if len(b.Instrs) == 0 {
+			continue
+		}
+		ifi, ok := b.Instrs[len(b.Instrs)-1].(*ssa.If)
+		if !ok {
+			continue
+		}
+		a := w.atom(ifi.Cond)
+		if a.Key == "" {
+			continue
+		}
+		okOps := true
+		for _, o := range []ssa.Value{a.X, a.Y} {
+			if o == nil {
+				continue
+			}
+			switch x := strip(o).(type) {
+			case *ssa.Parameter, *ssa.Const, *ssa.FreeVar:
+			case *ssa.Phi:
+				okOps = false
+			case ssa.Instruction:
+				if x.Block() == nil || w.blockInCycle(x.Block()) {
+					okOps = false
+				}
+			default:
+				okOps = false
+			}
+		}
+		if okOps && (a.Kind == "eqstr" || a.Kind == "nil" || a.Kind == "bool" || a.Kind == "eqk") {
+			stable[ifi] = a.Key
+		}
+	}
+	if len(stable) < 2 {
+		return false
+	}
+	type state struct {
+		b   *ssa.BasicBlock
+		asg string
+	}
+	seen := map[state]bool{}
+	budget := 20000
+	tb := target.Block()
+	var dfs func(b *ssa.BasicBlock, asg map[string]bool) bool
+	dfs = func(b *ssa.BasicBlock, asg map[string]bool) bool {
+		if b == tb {
+			return true
+		}
+		budget--
+		if budget < 0 {
+			return true
+		}
+		keys := make([]string, 0, len(asg))
+		for k, v := range asg {
+			if v {
+				keys = append(keys, k+"=1")
+			} else {
+				keys = append(keys, k+"=0")
+			}
+		}
+		sort.Strings(keys)
+		stt := state{b, strings.Join(keys, ";")}
+		if seen[stt] {
+			return false
+		}
+		seen[stt] = true
+		var ifi *ssa.If
+		if len(b.Instrs) > 0 {
+			ifi, _ = b.Instrs[len(b.Instrs)-1].(*ssa.If)
+		}
+		for i, sb := range b.Succs {
+			if !keep(b, i) {
+				continue
+			}
+			next := asg
+			if ifi != nil {
+				if k, ok := stable[ifi]; ok {
+					a := w.atom(ifi.Cond)
+					val := (i == 0) != a.Neg
+					if have, set := asg[k]; set {
+						if have != val {
+							continue
+						}
+					} else {
+						next = make(map[string]bool, len(asg)+1)
+						for kk, vv := range asg {
+							next[kk] = vv
+						}
+						next[k] = val
+					}
+				}
+			}
+			if dfs(sb, next) {
+				return true
+			}
+		}
+		return false
+	}
+	return !dfs(fn.Blocks[0], map[string]bool{})
 }
 
 // requires reports whether every entry path to target passes an If-edge on which the atom selected by
